@@ -417,6 +417,11 @@ class Fragment:
             raise ScanError(f"{self.what}: function without body")
         return ob
 
+    def insert_at_body_start(self, text):
+        ob = self.fn_body_open()
+        self.text = self.text[:ob + 1] + text + self.text[ob + 1:]
+        self.note('V-SPEC', 1, 'ghost text at function body start')
+
     def add_spec(self, spec):
         """insert requires/ensures between the signature and the body."""
         ob = self.fn_body_open()
